@@ -50,6 +50,10 @@ type Config struct {
 	// ExchangeRate: when set, the host registers the exchange-rate service the module consults for
 	// prices quoted in another token than the base denomination; it answers every pair with this rate
 	ExchangeRate string `json:"exchange_rate,omitempty"`
+	// FundingPoint: balances of the second coin ("point"). Only the cases of the invariant-only
+	// properties (C01, C11, C16, C20) that let governance move the base denomination have any: there
+	// deposits, fees and earnings exist in two denominations after the change
+	FundingPoint map[string]int64 `json:"funding_point,omitempty"`
 }
 
 // harnessTokens is the token registry of the emulated chain: the token "kstake" whose minimum
@@ -197,6 +201,12 @@ func NewWorld(cfg Config) *World {
 	for _, a := range sortedKeys(cfg.Funding) {
 		if amt := cfg.Funding[a]; amt > 0 {
 			w.mint(addr(a), amt)
+		}
+	}
+
+	for _, a := range sortedKeys(cfg.FundingPoint) {
+		if amt := cfg.FundingPoint[a]; amt > 0 {
+			w.mintCoins(addr(a), sdk.NewCoins(sdk.NewCoin("point", sdk.NewInt(amt))))
 		}
 	}
 
